@@ -1516,7 +1516,10 @@ pub fn match_transcript(
                 }
             }
         }
-        if c.blanks_ok && mi == 0 && r < c.actual.len() && c.actual[r].is_empty() && go(c, r + 1, li, si, mi, used) {
+        // (blank padding rows sit above the region; leading dropped members may have been reaped
+        // in an earlier draw of the same call and then count as static rows above the padding)
+        let lead = c.region.iter().take_while(|m| m.2).count();
+        if c.blanks_ok && mi <= lead && r < c.actual.len() && c.actual[r].is_empty() && go(c, r + 1, li, si, mi, used) {
             any = true;
         }
         if !any {
